@@ -124,12 +124,14 @@ pub fn gen_pre(r: &mut Rng) -> Vec<PreOp> {
     (0..n)
         .map(|_| {
             let v = r.below(250) as u8;
-            let kind = match r.weighted(&[3, 2, 3, 2, 1]) {
+            let kind = match r.weighted(&[3, 2, 3, 2, 1, 2, 2]) {
                 0 => PreKind::BadCompile(v),
                 1 => PreKind::BadCompileFree(v),
                 2 => PreKind::FailExec(v),
                 3 => PreKind::DepthExec(v),
-                _ => PreKind::OkExec(v),
+                4 => PreKind::OkExec(v),
+                5 => PreKind::SiblingCtx(v),
+                _ => PreKind::SiblingBind(v),
             };
             PreOp { late: r.chance(1, 2), own: r.chance(1, 2), kind }
         })
